@@ -35,7 +35,7 @@ import (
 	"github.com/tinode/chat/server/store/types"
 )
 
-type xScn struct {
+type x3Scn struct {
 	*vScn
 	admin    *vSess
 	delSid   int    // != 0: the delete requested by this session is held open
@@ -111,7 +111,7 @@ func xQuiescentNoHub(topics []string) (bool, string) {
 	return true, ""
 }
 
-func (x *xScn) drain() {
+func (x *x3Scn) drain() {
 	for _, vs := range x.sess {
 		vs.take()
 	}
@@ -126,7 +126,7 @@ func (x *xScn) drain() {
 }
 
 // closeWindow lets the hub finish the held delete. Returns a hang description or "".
-func (x *xScn) closeWindow() string {
+func (x *x3Scn) closeWindow() string {
 	if x.delSid == 0 {
 		return ""
 	}
@@ -143,14 +143,14 @@ func (x *xScn) closeWindow() string {
 	return hang
 }
 
-func (x *xScn) afterCrash() {
+func (x *x3Scn) afterCrash() {
 	x.restart()
 	vWaitQuiet([]string{x.topic, "sys"})
 	memverif.ClearFault()
 	xReloadSys()
 }
 
-func (x *xScn) emitExtra() {
+func (x *x3Scn) emitExtra() {
 	out := x.out
 	paused, ro := 0, 0
 	if t := globals.hub.topicGet(x.topic); t != nil {
@@ -214,7 +214,7 @@ func (x *xScn) emitExtra() {
 }
 
 // own ops print the same block shape as vScn.op
-func (x *xScn) tail(hang string, flt string) {
+func (x *x3Scn) tail(hang string, flt string) {
 	sc := x.vScn
 	sc.emitFrames()
 	calls := memverif.CallLog()
@@ -241,7 +241,7 @@ func (x *xScn) tail(hang string, flt string) {
 	x.emitExtra()
 }
 
-func (x *xScn) begin(flt string) string {
+func (x *x3Scn) begin(flt string) string {
 	sc := x.vScn
 	sc.opi++
 	fmt.Fprintf(sc.out, "op %d\n", sc.opi)
@@ -254,7 +254,7 @@ func (x *xScn) begin(flt string) string {
 	return fmt.Sprintf("%d", sc.opi)
 }
 
-func (x *xScn) xop(w []string) {
+func (x *x3Scn) xop(w []string) {
 	sc := x.vScn
 	flt, kind, a := w[0], w[1], w[2:]
 	at := func(i int) int { v, _ := strconv.Atoi(a[i]); return v }
@@ -390,7 +390,7 @@ func (x *xScn) xop(w []string) {
 	}
 }
 
-func (x *xScn) xfinish() {
+func (x *x3Scn) xfinish() {
 	if x.delSid != 0 {
 		x.closeWindow()
 	}
@@ -432,7 +432,7 @@ func TestVerifC03x(t *testing.T) {
 		}
 		xAdminUid = u.Uid()
 	}
-	var x *xScn
+	var x *x3Scn
 	scnCount := 0
 	for in.Scan() {
 		w := strings.Fields(in.Text())
@@ -449,7 +449,7 @@ func TestVerifC03x(t *testing.T) {
 			sc.gen = scnCount
 			sc.pending(kv)
 			xReloadSys()
-			x = &xScn{vScn: sc, admin: vNewSession(9000+scnCount, xAdminUid, auth.LevelRoot)}
+			x = &x3Scn{vScn: sc, admin: vNewSession(9000+scnCount, xAdminUid, auth.LevelRoot)}
 			x.sysBase = memverif.DumpTopic("sys").SeqId
 			fmt.Fprintf(out, "scn %s\n", w[1])
 		case "user":
